@@ -14,6 +14,7 @@ package archiver
 //@ func (*archiver).worker
 //@   property C17
 //@   attr hooked @C01 inputCh,outputCh
+//@   attr cancellable @C03 inputCh,outputCh
 //@   local nIn int = 0
 //@   local nOut int = 0
 //@   local inHand *models.Item = nil
